@@ -22,7 +22,7 @@ func queryTable(c *Ctx, rule string) {
 	}
 	c.Rule(rule, "queryInternal (enumerateChildren inlined), per node: path exhausted or exactly one glob left => a branch visits every child with an exhausted path, a leaf is handed to the visitor exactly once with its own value, an empty node nothing; glob with more elements => a branch visits every child with path[1:], a leaf or empty node nothing; plain element => a branch descends into children[path[0]] (if present) with path[1:], anything else nothing. Every descent extends the reported prefix by the key of the child it descends into")
 	c.Analysed(fnName(qi))
-	prefixP, pathP, fP := ssa.Value(qi.Params[1]), ssa.Value(qi.Params[2]), ssa.Value(qi.Params[3])
+	prefixP, pathP, fP := ssa.Value(param(qi, 1)), ssa.Value(param(qi, 2)), ssa.Value(param(qi, 3))
 	resolvesTo := func(e *PPA, st *State, rv RV, want ssa.Value) bool { return e.Resolve(st, rv).V == want }
 	cls := func(e *PPA, st *State, rv RV) string {
 		r := e.Resolve(st, rv)
@@ -353,7 +353,7 @@ func addAtomic(c *Ctx, rule string) {
 					}
 				case f == ta:
 					si := p.Index(0, func(ev *Ev) bool { return strings.HasPrefix(ev.Label, "store:") && ev.Field == fLB })
-					if rc != "nil" || si < 0 || unwrap(p.Trace[si].Args[1].V) != ssa.Value(f.Params[1]) {
+					if rc != "nil" || si < 0 || unwrap(p.Trace[si].Args[1].V) != ssa.Value(param(f, 1)) {
 						ok, why = false, "the value parameter must be stored and nil returned"
 					}
 				case kind == "leaf":
